@@ -105,6 +105,7 @@ func (g *Gen) call(st *State, v ssa.Value, c *ssa.CallCommon, ins ssa.Instructio
 	// sort.Slice / sort.SliceStable permute the elements of the slice in place (built-in rule; the comparison closure is
 	// assumed not to write the heap). Nothing is assumed about the resulting order here: see the determinism scan.
 	if key == "sort.Slice" || key == "sort.SliceStable" {
+		g.siteRequires(st, ins, key, pos, c, args) // e.g. "the sort key is a total order on the elements"
 		if mi, ok := c.Args[0].(*ssa.MakeInterface); ok {
 			if sl, ok := mi.X.Type().Underlying().(*types.Slice); ok {
 				tags := map[string]bool{}
@@ -204,7 +205,11 @@ func (g *Gen) siteRequires(st *State, ins ssa.Instruction, key string, pos token
 			}
 			o := g.addObl("pre", "at-site:"+shortName(key)+":"+label, st, t, pos)
 			o.Text = c.Text
-			g.sc.assume(st.pc, t)
+			if !strings.HasPrefix(key, "sort.") {
+				// a determinism side condition of a sort is checked but NOT assumed afterwards: the functional clauses of the
+				// function must hold whether or not it does
+				g.sc.assume(st.pc, t)
+			}
 		}
 	}
 }
@@ -647,6 +652,8 @@ func (g *Gen) appendOp(st *State, v ssa.Value, c *ssa.CallCommon, pos token.Pos)
 	capv := g.sc.fresh("appcap", "Int")
 	g.sc.emit("(assert (>= %s %s))", capv, newLen)
 	g.setVal(v, fmt.Sprintf("(mkslice %s 0 %s %s)", arr, newLen, capv))
+	// anchor for quantifier instantiation: the first appended position
+	g.sc.emit("(assert (anchor (sidx %s (slen %s))))", g.val[v], s)
 	// copy cells for every leaf tag of the element type
 	var leaf func(t types.Type, path func(string) string, tag string)
 	leaf = func(t types.Type, path func(string) string, tag string) {
@@ -668,11 +675,11 @@ func (g *Gen) appendOp(st *State, v ssa.Value, c *ssa.CallCommon, pos token.Pos)
 		cur := g.sc.lookup(st, tag)
 		n := g.sc.fresh("ma_"+tag, g.sc.tagSort[tag])
 		g.sc.emit("(assert (forall ((r Ref)) (! (=> (not (= (rb r) (rb %s))) (= (select %s r) (select %s r))) :pattern ((select %s r)))))", arr, n, cur, n)
-		dst := path(fmt.Sprintf("(idx %s i)", arr))
+		dst := path(fmt.Sprintf("(sidx %s i)", g.val[v])) // = (idx arr i); written with sidx so that instances match reads of the result
 		src1 := path(fmt.Sprintf("(sidx %s i)", s))
 		src2 := path(fmt.Sprintf("(sidx %s (- i (slen %s)))", more, s))
-		g.sc.emit("(assert (forall ((i Int)) (! (=> (and (<= 0 i) (< i %s)) (= (select %s %s) (ite (< i (slen %s)) (select %s %s) (select %s %s)))) :pattern ((select %s %s)))))",
-			newLen, n, dst, s, cur, src1, cur, src2, n, dst)
+		g.sc.emit("(assert (forall ((i Int)) (! (=> (and (<= 0 i) (< i %s)) (= (select %s %s) (ite (< i (slen %s)) (select %s %s) (select %s %s)))) :pattern ((select %s %s)) :pattern ((select %s %s)))))",
+			newLen, n, dst, s, cur, src1, cur, src2, n, dst, cur, src1)
 		st.mem[tag] = n
 		g.sc.setStep(n, cur, fmt.Sprintf("(rb %s)", arr))
 	}
